@@ -1,5 +1,1 @@
-open List in
-#check @List.Nodup.of_map
-#check @List.Pairwise.of_map
-#check @List.pairwise_map
-#check @List.nodup_iff_pairwise_ne
+#check @List.Forall₂
